@@ -320,4 +320,13 @@ example :
     exState.frames.map (·.parent) = [none, none, none, some 2, some 2, none] := by
   decide
 
+
+/-- the hypotheses of `C07_whole` / `C07_chunked` are satisfiable: the example history ends in a state
+    whose committed layout lists its four puts (two whole, one chunked, one without search text) -/
+example : ∃ bl, Inv markCodec h0 exState bl [] ∧ bl.map Prod.snd = putsOf exHistory := by
+  obtain ⟨bl, pend, h1, h2, h3⟩ := C07_history markCodec h0 true exHistory
+  have hp : pend = [] := h3.mp (by decide)
+  subst hp
+  exact ⟨bl, h1, by simpa using h2⟩
+
 end Mv.Content
